@@ -1,1 +1,283 @@
-//! shared helpers of this crate's checks
+//! Shared helpers of the pixel-data checks (C16, C18-C22): a tiny image model that can be turned
+//! into a real `FileDicomObject` (through the API, or by reading a Part 10 file that `vx-ref`
+//! encoded) and into a reference element list, plus write/parse helpers.
+
+use dicom_core::value::{PrimitiveValue, C};
+use dicom_core::{DataElement, Tag, VR};
+use dicom_object::{FileDicomObject, FileMetaTableBuilder, InMemDicomObject};
+use vx_ref::ds::{self, RElem, RVal, Ts};
+
+pub type FileObj = FileDicomObject<InMemDicomObject>;
+
+pub const IMPLICIT_LE: &str = "1.2.840.10008.1.2";
+pub const EXPLICIT_LE: &str = "1.2.840.10008.1.2.1";
+pub const EXPLICIT_BE: &str = "1.2.840.10008.1.2.2";
+pub const ENCAP_UNCOMPRESSED: &str = "1.2.840.10008.1.2.1.98";
+pub const DEFLATED_FRAME: &str = "1.2.840.10008.1.2.8.1";
+pub const RLE_LOSSLESS: &str = "1.2.840.10008.1.2.5";
+pub const JPEG_BASELINE: &str = "1.2.840.10008.1.2.4.50";
+pub const SC_IMAGE_STORAGE: &str = "1.2.840.10008.5.1.4.1.1.7";
+pub const INSTANCE_UID: &str = "1.2.826.0.1.3680043.9.7133.1.1";
+
+pub const T_PIXEL_DATA: (u16, u16) = (0x7FE0, 0x0010);
+pub const T_TOTAL_LENGTH: (u16, u16) = (0x7FE0, 0x0003);
+
+/// A native image: attributes + little-endian, unpadded pixel bytes.
+#[derive(Clone, Debug, PartialEq, Eq, Hash)]
+pub struct Img {
+    pub rows: u16,
+    pub cols: u16,
+    pub frames: u32,
+    /// write the Number of Frames attribute (may be left out when frames == 1)
+    pub frames_attr: bool,
+    pub bits_alloc: u16,
+    pub bits_stored: u16,
+    pub high_bit: u16,
+    pub spp: u16,
+    pub planar: Option<u16>,
+    pub signed: bool,
+    pub pi: &'static str,
+    /// "OB" (held as bytes) or "OW" (held as 16-bit words, zero-padded to even length)
+    pub pixel_vr: &'static str,
+    pub data: Vec<u8>,
+    /// additional primitive elements: (tag, vr, unpadded little-endian/text bytes)
+    pub extra: Vec<((u16, u16), &'static str, Vec<u8>)>,
+}
+
+impl Img {
+    pub fn new(rows: u16, cols: u16, frames: u32, bits_alloc: u16, spp: u16, data: Vec<u8>) -> Img {
+        Img {
+            rows,
+            cols,
+            frames,
+            frames_attr: true,
+            bits_alloc,
+            bits_stored: bits_alloc,
+            high_bit: bits_alloc - 1,
+            spp,
+            planar: if spp == 3 { Some(0) } else { None },
+            signed: false,
+            pi: if spp == 3 { "RGB" } else { "MONOCHROME2" },
+            pixel_vr: if bits_alloc == 16 { "OW" } else { "OB" },
+            data,
+            extra: vec![],
+        }
+    }
+    pub fn samples_per_frame(&self) -> usize {
+        self.rows as usize * self.cols as usize * self.spp as usize
+    }
+    /// bytes of one frame for 8/16-bit images
+    pub fn frame_bytes(&self) -> usize {
+        self.samples_per_frame() * (self.bits_alloc as usize).div_ceil(8)
+    }
+    pub fn label(&self) -> String {
+        format!(
+            "{}x{}x{}f{} b{}/{} spp{} pl{:?} {} {} {} data={}",
+            self.rows,
+            self.cols,
+            self.frames,
+            if self.frames_attr { "" } else { "(no NumberOfFrames)" },
+            self.bits_alloc,
+            self.bits_stored,
+            self.spp,
+            self.planar,
+            if self.signed { "signed" } else { "unsigned" },
+            self.pi,
+            self.pixel_vr,
+            hex(&self.data[..self.data.len().min(48)])
+        )
+    }
+
+    /// reference elements (ascending tags), values as unpadded little-endian bytes
+    pub fn to_ref(&self) -> Vec<RElem> {
+        let us = |t: (u16, u16), v: u16| RElem::prim(t, "US", &v.to_le_bytes());
+        let mut e = vec![
+            RElem::prim((0x0008, 0x0016), "UI", SC_IMAGE_STORAGE.as_bytes()),
+            RElem::prim((0x0008, 0x0018), "UI", INSTANCE_UID.as_bytes()),
+            us((0x0028, 0x0002), self.spp),
+            RElem::prim((0x0028, 0x0004), "CS", self.pi.as_bytes()),
+        ];
+        if let Some(p) = self.planar {
+            e.push(us((0x0028, 0x0006), p));
+        }
+        if self.frames_attr {
+            e.push(RElem::prim((0x0028, 0x0008), "IS", self.frames.to_string().as_bytes()));
+        }
+        e.push(us((0x0028, 0x0010), self.rows));
+        e.push(us((0x0028, 0x0011), self.cols));
+        e.push(us((0x0028, 0x0100), self.bits_alloc));
+        e.push(us((0x0028, 0x0101), self.bits_stored));
+        e.push(us((0x0028, 0x0102), self.high_bit));
+        e.push(us((0x0028, 0x0103), self.signed as u16));
+        for (t, v, b) in &self.extra {
+            e.push(RElem::prim(*t, v, b));
+        }
+        let mut px = self.data.clone();
+        if self.pixel_vr == "OW" && px.len() % 2 == 1 {
+            px.push(0);
+        }
+        e.push(RElem::prim(T_PIXEL_DATA, self.pixel_vr, &px));
+        e.sort_by_key(|x| x.tag);
+        e
+    }
+
+    /// the same image built through the object API
+    pub fn to_obj(&self, ts_uid: &str) -> FileObj {
+        let mut o = InMemDicomObject::new_empty();
+        for e in self.to_ref() {
+            let RVal::Prim(b) = &e.val else { unreachable!() };
+            let tag = Tag(e.tag.0, e.tag.1);
+            let el = match &e.vr {
+                b"US" => DataElement::new(tag, VR::US, PrimitiveValue::from(u16::from_le_bytes([b[0], b[1]]))),
+                b"OB" => DataElement::new(tag, VR::OB, PrimitiveValue::U8(C::from_vec(b.clone()))),
+                b"OW" => DataElement::new(
+                    tag,
+                    VR::OW,
+                    PrimitiveValue::U16(b.chunks_exact(2).map(|c| u16::from_le_bytes([c[0], c[1]])).collect()),
+                ),
+                b"UI" => DataElement::new(tag, VR::UI, PrimitiveValue::from(String::from_utf8(b.clone()).unwrap())),
+                b"CS" => DataElement::new(tag, VR::CS, PrimitiveValue::from(String::from_utf8(b.clone()).unwrap())),
+                b"IS" => DataElement::new(tag, VR::IS, PrimitiveValue::from(String::from_utf8(b.clone()).unwrap())),
+                b"DS" => DataElement::new(tag, VR::DS, PrimitiveValue::from(String::from_utf8(b.clone()).unwrap())),
+                other => panic!("Img::to_obj: VR {:?} not handled", ds::vr_str(*other)),
+            };
+            o.put(el);
+        }
+        with_meta(o, ts_uid)
+    }
+
+    /// the same image obtained the way users obtain it: by reading a Part 10 file
+    /// (encoded here by vx-ref, in the given native transfer syntax)
+    pub fn to_obj_via_file(&self, ts: Ts) -> Result<FileObj, String> {
+        let file = ds::encode_file(true, &ds::std_meta(ts.uid(), SC_IMAGE_STORAGE, INSTANCE_UID), ts, &self.to_ref());
+        read_file(&file)
+    }
+}
+
+pub fn with_meta(o: InMemDicomObject, ts_uid: &str) -> FileObj {
+    o.with_meta(
+        FileMetaTableBuilder::new()
+            .transfer_syntax(ts_uid)
+            .media_storage_sop_class_uid(SC_IMAGE_STORAGE)
+            .media_storage_sop_instance_uid(INSTANCE_UID),
+    )
+    .expect("file meta table")
+}
+
+pub fn read_file(bytes: &[u8]) -> Result<FileObj, String> {
+    dicom_object::from_reader(bytes).map_err(|e| short(format!("{e:?}")))
+}
+
+pub fn write_file(obj: &FileObj) -> Result<Vec<u8>, String> {
+    let mut out = vec![];
+    obj.write_all(&mut out).map_err(|e| short(format!("{e:?}")))?;
+    Ok(out)
+}
+
+fn known_vr(t: ds::Tag) -> Option<ds::Vr> {
+    // only needed for Implicit VR streams written by dicom-rs in these checks
+    Some(ds::vr(match t {
+        (0x0008, 0x0016) | (0x0008, 0x0018) => "UI",
+        (0x0028, 0x0004) | (0x0028, 0x2110) | (0x0028, 0x1056) => "CS",
+        (0x0028, 0x0008) => "IS",
+        (0x0028, 0x1050) | (0x0028, 0x1051) | (0x0028, 0x1052) | (0x0028, 0x1053) | (0x0028, 0x2112) => "DS",
+        (0x0028, _) => "US",
+        (0x7FE0, 0x0003) => "UV",
+        (0x7FE0, 0x0010) => "OW",
+        _ => return None,
+    }))
+}
+
+/// Strictly parse a Part 10 file written by dicom-rs (native syntaxes and encapsulated ones,
+/// which are all Explicit VR LE). Returns (transfer syntax uid, data set elements).
+pub fn parse_written(bytes: &[u8]) -> Result<(String, Vec<RElem>), String> {
+    let head = ds::parse_file_head(bytes).map_err(|e| format!("file head: {e}"))?;
+    let ts = match head.ts_uid.as_str() {
+        IMPLICIT_LE => Ts::ImplicitLE,
+        EXPLICIT_BE => Ts::ExplicitBE,
+        _ => Ts::ExplicitLE,
+    };
+    let elems = ds::parse(ts, &bytes[head.dataset_offset..], &known_vr).map_err(|e| format!("data set: {e}"))?;
+    Ok((head.ts_uid, elems))
+}
+
+pub fn find<'a>(elems: &'a [RElem], tag: (u16, u16)) -> Option<&'a RElem> {
+    elems.iter().find(|e| e.tag == tag)
+}
+pub fn prim<'a>(elems: &'a [RElem], tag: (u16, u16)) -> Option<&'a [u8]> {
+    match &find(elems, tag)?.val {
+        RVal::Prim(b) => Some(b),
+        _ => None,
+    }
+}
+pub fn us(elems: &[RElem], tag: (u16, u16)) -> Option<u16> {
+    let b = prim(elems, tag)?;
+    (b.len() == 2).then(|| u16::from_le_bytes([b[0], b[1]]))
+}
+pub fn text(elems: &[RElem], tag: (u16, u16)) -> Option<String> {
+    Some(String::from_utf8_lossy(prim(elems, tag)?).trim_end_matches([' ', '\0']).to_string())
+}
+
+pub fn hex(b: &[u8]) -> String {
+    b.iter().map(|x| format!("{x:02X}")).collect::<Vec<_>>().join("")
+}
+pub fn short(s: String) -> String {
+    s.chars().take(300).collect()
+}
+
+/// Shapes (rows, cols, frames, spp) with rows, cols, frames in 1..=3 and at most `max_samples`
+/// samples in total, simplest first.
+pub fn tiny_shapes(max_samples: usize) -> Vec<(u16, u16, u32, u16)> {
+    let mut v = vec![];
+    for spp in [1u16, 3] {
+        for f in 1..=3u32 {
+            for r in 1..=3u16 {
+                for c in 1..=3u16 {
+                    let n = r as usize * c as usize * f as usize * spp as usize;
+                    if n <= max_samples {
+                        v.push((r, c, f, spp));
+                    }
+                }
+            }
+        }
+    }
+    v.sort_by_key(|&(r, c, f, s)| (r as usize * c as usize * f as usize * s as usize, s, f, r, c));
+    v
+}
+
+pub const ALPHA8: [u8; 3] = [0x01, 0x80, 0xFE];
+pub const ALPHA16: [u16; 3] = [0x0102, 0x8001, 0xFFFE];
+
+/// pixel bytes for `n` samples taken from the 3-value alphabet, `code` read in base 3
+pub fn alpha_bytes(bits: u16, n: usize, mut code: u64) -> Vec<u8> {
+    let mut out = Vec::with_capacity(n * (bits as usize / 8));
+    for _ in 0..n {
+        let d = (code % 3) as usize;
+        code /= 3;
+        if bits == 8 {
+            out.push(ALPHA8[d]);
+        } else {
+            out.extend_from_slice(&ALPHA16[d].to_le_bytes());
+        }
+    }
+    out
+}
+
+/// index-coded samples for larger shapes: sample i = distinct, byte-asymmetric value
+pub fn index_bytes(bits: u16, n: usize) -> Vec<u8> {
+    let mut out = Vec::with_capacity(n * (bits as usize / 8));
+    for i in 0..n {
+        if bits == 8 {
+            out.push((i as u8).wrapping_mul(37).wrapping_add(1));
+        } else {
+            let v = (i as u16).wrapping_mul(0x0B35).wrapping_add(0x0102);
+            out.extend_from_slice(&v.to_le_bytes());
+        }
+    }
+    out
+}
+
+pub fn pow3(n: usize) -> u64 {
+    3u64.pow(n as u32)
+}
+pub mod xcode;
